@@ -63,6 +63,7 @@ CHECKS["C06"] = {
     "jobs": [
         rapid_job("valid", "./verifh/c06", "TestReadMask|TestValidateAcceptsValid|TestSharedFilter", 6000, 40000),
         rapid_job("pull", "./verifh/c06", "TestPullProjectionsSideBySide", 2500, 15000),
+        rapid_job("server-lists", "./verifh/c06", "TestServerListsWithReadMasks", 2000, 15000),
         rapid_job("corrupt", "./verifh/c06", "TestCorruptMask", 6000, 40000),
         {"name": "fuzz-readmask", "pkg": "./verifh/c06", "run": "^$", "rapid": False, "fuzz": "FuzzReadMask", "fuzztime": {T: 150}, "tiers": (T,), "shards": {T: 1}},
     ],
